@@ -1916,6 +1916,9 @@ func (s *ImmuStore) performPrecommit(tx *Tx, entries []*EntrySpec, ts int64, blT
 
 	tx.header.BlTxID = blTxID
 
+	// the transaction holder is pooled, it may carry the root of an earlier transaction
+	tx.header.BlRoot = [sha256.Size]byte{}
+
 	if blTxID > 0 {
 		blRoot, err := s.aht.RootAt(blTxID)
 		if err != nil && !errors.Is(err, ahtree.ErrEmptyTree) {
